@@ -85,7 +85,9 @@ func (muxer *Muxer) Close() error {
 	}
 
 	muxer.closed = true
-	muxer.recvQueue.Signal()
+	// 入列一个空元素而不是只发信号：转换协程若正处在循环条件与阻塞等待之间，
+	// 没有等待者时发出的信号会丢失，协程将永远停在 Pop 中
+	muxer.recvQueue.Push(nil)
 	return nil
 }
 
